@@ -55,7 +55,7 @@ func main() {
 	n := 0
 	{
 		// the package the inserted scheduling points call (always present: cmd/vsched links the harness that sets its hook)
-		src := "// Package vyield exists only in verification builds (go build -overlay).\npackage vyield\n\n// Hook is called before every statement of the instrumented packages when it is set.\nvar Hook func()\n\n// Y is the inserted call.\nfunc Y() {\n\tif h := Hook; h != nil {\n\t\th()\n\t}\n}\n"
+		src := "// Package vyield exists only in verification builds (go build -overlay).\npackage vyield\n\n// Hook is called before every statement of the instrumented packages when it is set.\nvar Hook func()\n\n// Y is the inserted call.\nfunc Y() {\n\tif h := Hook; h != nil {\n\t\th()\n\t}\n}\n\n// GoHook, when set, starts the goroutines of the instrumented packages.\nvar GoHook func(func())\n\n// Go replaces the go statement.\nfunc Go(fn func()) {\n\tif h := GoHook; h != nil {\n\t\th(fn)\n\t\treturn\n\t}\n\tgo fn()\n}\n"
 		yc := filepath.Join(out, "vyield.go")
 		die(os.WriteFile(yc, []byte(src), 0644))
 		repl[filepath.Join(repo, "verifshim", "vyield", "vyield.go")] = yc
@@ -117,14 +117,18 @@ func insertYields(src []byte) []byte {
 	fset := token.NewFileSet()
 	f, err := parser.ParseFile(fset, "x.go", src, parser.ParseComments)
 	die(err)
-	var offs []int
+	type edit struct {
+		off, del, ord int
+		ins           string
+	}
+	var edits []edit
 	add := func(list []ast.Stmt) {
 		for _, st := range list {
 			switch st.(type) {
 			case *ast.CaseClause, *ast.CommClause:
 				continue // the "statements" of a switch / select body are its clauses
 			}
-			offs = append(offs, fset.Position(st.Pos()).Offset)
+			edits = append(edits, edit{off: fset.Position(st.Pos()).Offset, ins: "vyield.Y(); "})
 		}
 	}
 	ast.Inspect(f, func(n ast.Node) bool {
@@ -135,19 +139,29 @@ func insertYields(src []byte) []byte {
 			add(x.Body)
 		case *ast.CommClause:
 			add(x.Body)
+		case *ast.GoStmt:
+			// "go f(x)" becomes "vyield.Go(func() { f(x) })": a goroutine started by instrumented code is a thread of
+			// the explorer (spawn is a scheduling point), not a free-running one
+			edits = append(edits, edit{off: fset.Position(x.Pos()).Offset, del: 2, ord: 1, ins: "vyield.Go(func() {"})
+			edits = append(edits, edit{off: fset.Position(x.End()).Offset, ord: -1, ins: " })"})
 		}
 		return true
 	})
-	if len(offs) == 0 {
+	if len(edits) == 0 {
 		return src
 	}
-	sort.Ints(offs)
+	sort.SliceStable(edits, func(i, j int) bool {
+		if edits[i].off != edits[j].off {
+			return edits[i].off < edits[j].off
+		}
+		return edits[i].ord < edits[j].ord
+	})
 	var out bytes.Buffer
 	last := 0
-	for _, o := range offs {
-		out.Write(src[last:o])
-		out.WriteString("vyield.Y(); ")
-		last = o
+	for _, e := range edits {
+		out.Write(src[last:e.off])
+		out.WriteString(e.ins)
+		last = e.off + e.del
 	}
 	out.Write(src[last:])
 	res := out.Bytes()
